@@ -59,6 +59,10 @@ func genCase(t *rapid.T) (Case, *env.Env) {
 			cfg.TsbdS = 120
 		}
 	}
+	if rapid.IntRange(0, 4).Draw(t, "utc?") == 0 {
+		// UTCTiming elements are part of the document: none of them may make it depend on the request instant
+		cfg.Extra = append(cfg.Extra, rapid.SampledFrom([]string{"utc_direct", "utc_direct-httpiso", "utc_httpxsdate-ntp", "utc_head-sntp-direct"}).Draw(t, "utc"))
+	}
 	c := Case{Target: tg, MPD: rapid.SampledFrom(names).Draw(t, "mpd"), Cfg: cfg}
 	// multi-period: only values whose period duration is a multiple of the segment duration (rejection is C06's)
 	if rapid.IntRange(0, 3).Draw(t, "periods?") == 0 {
